@@ -401,19 +401,26 @@ def _parse_iso8601_duration(text: str, **options: str) -> Duration | None:
                 _seconds, _microseconds = _seconds.split(".")
                 seconds += int(_seconds)
                 microseconds += int(f"{_microseconds[:6]:0<6}")
+
+                if len(_microseconds) > 6 and int(_microseconds[6]) >= 5:
+                    # Rounding the remaining digits to the microsecond
+                    microseconds += 1
             else:
                 seconds += int(_seconds)
 
-    return Duration(
-        years=years,
-        months=months,
-        weeks=weeks,
-        days=days,
-        hours=hours,
-        minutes=minutes,
-        seconds=seconds,
-        microseconds=microseconds,
-    )
+    try:
+        return Duration(
+            years=years,
+            months=months,
+            weeks=weeks,
+            days=days,
+            hours=hours,
+            minutes=minutes,
+            seconds=seconds,
+            microseconds=microseconds,
+        )
+    except OverflowError:
+        raise ParserError("Duration is too large")
 
 
 def _get_iso_8601_week(
